@@ -34,10 +34,10 @@ package curves
 //@   requires c.Config.Linear != nil && c.Config.Linear.Sensor in sensorReg && c.Config.Linear.Sensor in sensorFinite
 //@   requires c.Config.Linear.Steps != nil ==> util.stepsOK(c.Config.Linear.Steps)
 //@   requires c.Config.Linear.Steps == nil ==> c.Config.Linear.Min < c.Config.Linear.Max && -1000000 <= c.Config.Linear.Min && c.Config.Linear.Max <= 1000000
-//@   ensures[C06.range] err == nil && 0 <= value && value <= 255
-//@   ensures[C06.current] c.Value == value
-//@   ensures[C06.minmax]  c.Config.Linear.Steps == nil ==> value == linRamp(lastAvgRead, float64(c.Config.Linear.Min) * 1000.0, float64(c.Config.Linear.Max) * 1000.0)
-//@   ensures[C06.steps]   c.Config.Linear.Steps != nil ==> value == int(round(lastInterp))
+//@   ensures[C06.range C07] err == nil && 0 <= value && value <= 255
+//@   ensures[C06.current C07] c.Value == value
+//@   ensures[C06.minmax C07]  c.Config.Linear.Steps == nil ==> value == linRamp(lastAvgRead, float64(c.Config.Linear.Min) * 1000.0, float64(c.Config.Linear.Max) * 1000.0)
+//@   ensures[C06.steps C07]   c.Config.Linear.Steps != nil ==> value == int(round(lastInterp))
 //@   modifies c.Value, lastAvgRead, lastInterp, segLo, segHi, segHit
 
 //@ ghost var memberVals gmap[int]int
@@ -52,20 +52,20 @@ package curves
 //@   requires forall i :: 0 <= i && i < len(c.Config.Function.Curves) ==> c.Config.Function.Curves[i] in curveReg
 //@   ghostret memberVals := seqof(values)
 //@   ghostret memberCount := len(values)
-//@   ensures[C06.range.sum]  err == nil && c.Config.Function.Type == "sum" ==> 0 <= value && value <= 255
-//@   ensures[C06.range.difference] err == nil && c.Config.Function.Type == "difference" ==> 0 <= value && value <= 255
-//@   ensures[C06.range.delta] err == nil && c.Config.Function.Type == "delta" ==> 0 <= value && value <= 255
-//@   ensures[C06.range.minimum] err == nil && c.Config.Function.Type == "minimum" ==> 0 <= value && value <= 255
-//@   ensures[C06.range.maximum] err == nil && c.Config.Function.Type == "maximum" ==> 0 <= value && value <= 255
-//@   ensures[C06.range.average] err == nil && c.Config.Function.Type == "average" ==> 0 <= value && value <= 255
-//@   ensures[C06.range]   err == nil ==> 0 <= value && value <= 255
-//@   ensures[C06.current] err == nil ==> c.Value == value
-//@   ensures[C06.members] err == nil ==> memberCount == len(c.Config.Function.Curves) && (forall j :: 0 <= j && j < memberCount ==> 0 <= memberVals[j] && memberVals[j] <= 255)
-//@   ensures[C06.sum]     err == nil && c.Config.Function.Type == "sum" ==> value == min(255, sumto(memberVals, memberCount))
-//@   ensures[C06.difference] err == nil && c.Config.Function.Type == "difference" ==> value == max(0, 2 * memberVals[0] - sumto(memberVals, memberCount))
-//@   ensures[C06.average] err == nil && c.Config.Function.Type == "average" ==> value == sumto(memberVals, memberCount) / memberCount
-//@   ensures[C06.minimum] err == nil && c.Config.Function.Type == "minimum" ==> (forall j :: 0 <= j && j < memberCount ==> value <= memberVals[j]) && (exists j :: 0 <= j && j < memberCount && value == memberVals[j])
-//@   ensures[C06.maximum] err == nil && c.Config.Function.Type == "maximum" ==> (forall j :: 0 <= j && j < memberCount ==> value >= memberVals[j]) && (exists j :: 0 <= j && j < memberCount && value == memberVals[j])
+//@   ensures[C06.range.sum C07]  err == nil && c.Config.Function.Type == "sum" ==> 0 <= value && value <= 255
+//@   ensures[C06.range.difference C07] err == nil && c.Config.Function.Type == "difference" ==> 0 <= value && value <= 255
+//@   ensures[C06.range.delta C07] err == nil && c.Config.Function.Type == "delta" ==> 0 <= value && value <= 255
+//@   ensures[C06.range.minimum C07] err == nil && c.Config.Function.Type == "minimum" ==> 0 <= value && value <= 255
+//@   ensures[C06.range.maximum C07] err == nil && c.Config.Function.Type == "maximum" ==> 0 <= value && value <= 255
+//@   ensures[C06.range.average C07] err == nil && c.Config.Function.Type == "average" ==> 0 <= value && value <= 255
+//@   ensures[C06.range C07]   err == nil ==> 0 <= value && value <= 255
+//@   ensures[C06.current C07] err == nil ==> c.Value == value
+//@   ensures[C06.members C07] err == nil ==> memberCount == len(c.Config.Function.Curves) && (forall j :: 0 <= j && j < memberCount ==> 0 <= memberVals[j] && memberVals[j] <= 255)
+//@   ensures[C06.sum C07]     err == nil && c.Config.Function.Type == "sum" ==> value == min(255, sumto(memberVals, memberCount))
+//@   ensures[C06.difference C07] err == nil && c.Config.Function.Type == "difference" ==> value == max(0, 2 * memberVals[0] - sumto(memberVals, memberCount))
+//@   ensures[C06.average C07] err == nil && c.Config.Function.Type == "average" ==> value == sumto(memberVals, memberCount) / memberCount
+//@   ensures[C06.minimum C07] err == nil && c.Config.Function.Type == "minimum" ==> (forall j :: 0 <= j && j < memberCount ==> value <= memberVals[j]) && (exists j :: 0 <= j && j < memberCount && value == memberVals[j])
+//@   ensures[C06.maximum C07] err == nil && c.Config.Function.Type == "maximum" ==> (forall j :: 0 <= j && j < memberCount ==> value >= memberVals[j]) && (exists j :: 0 <= j && j < memberCount && value == memberVals[j])
 // (attempted, not counted: C06.delta "value == largest - smallest member" does not discharge within the time limit; its range clause does)
 //@   modifies memberVals, memberCount, each(*LinearSpeedCurve).Value, each(*FunctionSpeedCurve).Value, each(*PidSpeedCurve).Value, lastAvgRead, lastValue, lastInterp, segLo, segHi, segHit, each(*util.PidLoop).integral, each(*util.PidLoop).error, each(*util.PidLoop).lastTime, lastPidOut, procWorld, started, lastReadFailed
 //@   loop 1 "for _, curveId := range c.Config.Function.Curves"
@@ -73,34 +73,34 @@ package curves
 //@     invariant forall j :: 0 <= j && j < len(curves) ==> curves[j] != nil
 //@   loop 2 "for _, curve := range curves"
 //@     invariant -1 <= rangeindex && rangeindex < len(curves) && len(values) == rangeindex + 1 && (arrayOf(values) == 0 || arrayOf(values) >= old(W)) && (len(values) == 0 ==> cap(values) == 0)
-//@     invariant[C06.vals] byteVals(values)
+//@     invariant[C06.vals C07] byteVals(values)
 //@     invariant len(curves) == len(c.Config.Function.Curves) && c.Config.Function == old(c.Config.Function) && fnTypeOK(c.Config.Function.Type) && (forall j :: 0 <= j && j < len(curves) ==> curves[j] != nil)
 //@   loop 3 "for _, v := range values"
 //@     invariant -1 <= rangeindex && rangeindex < len(values) && len(values) == len(curves) && len(curves) >= 1
-//@     invariant[C06.fold] byteVals(values) && 0 <= sum && sum <= 255 * (rangeindex + 1) && sum == sumto(seqof(values), rangeindex + 1)
+//@     invariant[C06.fold C07] byteVals(values) && 0 <= sum && sum <= 255 * (rangeindex + 1) && sum == sumto(seqof(values), rangeindex + 1)
 //@   loop 4 "for idx, v := range values"
 //@     invariant -1 <= rangeindex && rangeindex < len(values) && len(values) == len(curves) && len(curves) >= 1
-//@     invariant[C06.fold] byteVals(values) && (rangeindex == -1 ==> difference == 0) && (rangeindex >= 0 ==> difference <= values[0] && difference >= values[0] - 255 * rangeindex && difference == 2 * values[0] - sumto(seqof(values), rangeindex + 1))
+//@     invariant[C06.fold C07] byteVals(values) && (rangeindex == -1 ==> difference == 0) && (rangeindex >= 0 ==> difference <= values[0] && difference >= values[0] - 255 * rangeindex && difference == 2 * values[0] - sumto(seqof(values), rangeindex + 1))
 //@   loop 5 "for _, v := range values"
 //@     invariant -1 <= rangeindex && rangeindex < len(values) && len(values) == len(curves) && len(curves) >= 1
-//@     invariant[C06.fold] byteVals(values) && fin(dmin) && fin(dmax) && 0.0 <= dmin && dmin <= dmax && dmax <= 255.0 && (exists i, j :: 0 <= i && i < len(values) && 0 <= j && j < len(values) && real(dmax) == real(values[i]) && real(dmin) == real(values[j])) && (forall k :: 0 <= k && k <= rangeindex ==> real(dmin) <= real(values[k]) && real(values[k]) <= real(dmax))
+//@     invariant[C06.fold C07] byteVals(values) && fin(dmin) && fin(dmax) && 0.0 <= dmin && dmin <= dmax && dmax <= 255.0 && (exists i, j :: 0 <= i && i < len(values) && 0 <= j && j < len(values) && real(dmax) == real(values[i]) && real(dmin) == real(values[j])) && (forall k :: 0 <= k && k <= rangeindex ==> real(dmin) <= real(values[k]) && real(values[k]) <= real(dmax))
 //@   loop 6 "for _, v := range values"
 //@     invariant -1 <= rangeindex && rangeindex < len(values) && len(values) == len(curves) && len(curves) >= 1
-//@     invariant[C06.fold] byteVals(values) && fin(min) && 0.0 <= min && min <= 255.0 && (forall k :: 0 <= k && k <= rangeindex ==> real(min) <= real(values[k])) && (real(min) == 255.0 || (exists j :: 0 <= j && j <= rangeindex && real(min) == real(values[j])))
+//@     invariant[C06.fold C07] byteVals(values) && fin(min) && 0.0 <= min && min <= 255.0 && (forall k :: 0 <= k && k <= rangeindex ==> real(min) <= real(values[k])) && (real(min) == 255.0 || (exists j :: 0 <= j && j <= rangeindex && real(min) == real(values[j])))
 //@   loop 7 "for _, v := range values"
 //@     invariant -1 <= rangeindex && rangeindex < len(values) && len(values) == len(curves) && len(curves) >= 1
-//@     invariant[C06.fold] byteVals(values) && fin(max) && 0.0 <= max && max <= 255.0 && (forall k :: 0 <= k && k <= rangeindex ==> real(max) >= real(values[k])) && (real(max) == 0.0 || (exists j :: 0 <= j && j <= rangeindex && real(max) == real(values[j])))
+//@     invariant[C06.fold C07] byteVals(values) && fin(max) && 0.0 <= max && max <= 255.0 && (forall k :: 0 <= k && k <= rangeindex ==> real(max) >= real(values[k])) && (real(max) == 0.0 || (exists j :: 0 <= j && j <= rangeindex && real(max) == real(values[j])))
 //@   loop 8 "for _, v := range values"
 //@     invariant -1 <= rangeindex && rangeindex < len(values) && len(values) == len(curves) && len(curves) >= 1
-//@     invariant[C06.fold] byteVals(values) && 0 <= total && total <= 255 * (rangeindex + 1) && total == sumto(seqof(values), rangeindex + 1)
+//@     invariant[C06.fold C07] byteVals(values) && 0 <= total && total <= 255 * (rangeindex + 1) && total == sumto(seqof(values), rangeindex + 1)
 
 //@ func (*PidSpeedCurve).Evaluate
 //@   props C06 C09
 //@   requires c.Config.PID != nil && c.pidLoop != nil && c.Config.PID.Sensor in sensorReg
-//@   ensures[C06.range.finite] err == nil && !isnan(lastPidOut) ==> 0 <= value && value <= 255
-//@   ensures[C06.range]   err == nil ==> 0 <= value && value <= 255
-//@   ensures[C06.pid]     err == nil && !isnan(lastPidOut) ==> value == int(util.clamp01(lastPidOut) * 255.0)
-//@   ensures[C06.current] err == nil ==> c.Value == value
+//@   ensures[C06.range.finite C07] err == nil && !isnan(lastPidOut) ==> 0 <= value && value <= 255
+//@   ensures[C06.range C07]   err == nil ==> 0 <= value && value <= 255
+//@   ensures[C06.pid C07]     err == nil && !isnan(lastPidOut) ==> value == int(util.clamp01(lastPidOut) * 255.0)
+//@   ensures[C06.current C07] err == nil ==> c.Value == value
 //@   modifies c.Value, c.pidLoop.integral, c.pidLoop.error, c.pidLoop.lastTime, lastValue, lastPidOut, procWorld, started, lastReadFailed
 
 // ---- trivial getters (generated by `govc gengetters`, verified like every other contract) ------------------
@@ -113,3 +113,37 @@ package curves
 //@ func (*PidSpeedCurve).GetId
 //@   ensures result == c.Config.ID
 //@   modifies nothing
+
+// ---- hotter never means slower (C07): lemmas over the contracts above ------------------------------------------
+//@ ghost var avgSnap float64
+//@ ghost var valsSnap gmap[int]int
+//@ ghost var countSnap int
+
+//@ func lemmaLinearMonotone
+//@   props C07
+//@   requires c != nil && c.Config.Linear != nil && c.Config.Linear.Sensor in sensorReg && c.Config.Linear.Sensor in sensorFinite
+//@   requires c.Config.Linear.Steps == nil && c.Config.Linear.Min < c.Config.Linear.Max && -1000000 <= c.Config.Linear.Min && c.Config.Linear.Max <= 1000000
+//@   atcall ghost Evaluate: avgSnap := lastAvgRead
+//@   ensures[C07.ramp] fin(avgSnap) && fin(lastAvgRead) && avgSnap <= lastAvgRead ==> v1 <= v2
+//@   modifies anything
+
+//@ pure membersUp(n int) bool = forall j int :: 0 <= j && j < n ==> valsSnap[j] <= memberVals[j]
+//@ func lemmaSumMonotone
+//@   props C07
+//@   ensures membersUp(n) ==> sumto(valsSnap, n) <= sumto(memberVals, n)
+//@   modifies nothing
+//@   loop 1 "for i := 0; i < n; i++"
+//@     invariant 0 <= i && (i <= n || n < 0) && (membersUp(n) ==> sumto(valsSnap, i) <= sumto(memberVals, i))
+
+//@ func lemmaFunctionMonotone
+//@   props C07
+//@   requires c != nil && c.Config.Function != nil && fnTypeOK(c.Config.Function.Type)
+//@   requires len(c.Config.Function.Curves) >= 1 && len(c.Config.Function.Curves) <= 100000
+//@   requires forall i :: 0 <= i && i < len(c.Config.Function.Curves) ==> c.Config.Function.Curves[i] in curveReg
+//@   atcall ghost Evaluate: valsSnap := memberVals
+//@   atcall ghost Evaluate: countSnap := memberCount
+//@   ensures[C07.maximum] e1 == nil && e2 == nil && c.Config.Function.Type == "maximum" && membersUp(memberCount) ==> v1 <= v2
+//@   ensures[C07.minimum] e1 == nil && e2 == nil && c.Config.Function.Type == "minimum" && membersUp(memberCount) ==> v1 <= v2
+//@   ensures[C07.sum] e1 == nil && e2 == nil && c.Config.Function.Type == "sum" && membersUp(memberCount) ==> v1 <= v2
+//@   ensures[C07.average] e1 == nil && e2 == nil && c.Config.Function.Type == "average" && membersUp(memberCount) ==> v1 <= v2
+//@   modifies anything
